@@ -334,7 +334,10 @@ def capacity_obligations(run, label):
       fits = z3.And(lift(ret) >= 0, lift(ret) + lift(inc) <= caps[capn])
       if st == "nefc":
         fits = z3.And(fits, lift(inc) >= 1)  # a row allocation asks for at least one row (condim in {1,3,4,6})
-      noovf.append(z3.Implies(zb(a.guard), fits))
+      # stated unguarded: `ret` is a fresh symbol that only means something on the paths where the
+      # allocation happens, so constraining it everywhere adds nothing (and survives the
+      # integer projection, which would drop a hypothesis guarded by a floating-point path)
+      noovf.append(fits)
     pairs = [(c, z3.Int(n + "''")) for n, c in caps.items()]
     bigger = [p[1] >= p[0] for p in pairs]
     hyp = list(ex.assumes) + noovf + bigger
@@ -377,7 +380,11 @@ def capacity_obligations(run, label):
       n += 1
       oid = f"{key}[{label}]#CAPACITY.noovf.{a.arr.name}@{a.lineno}.{n}"
       goal = z3.And(*conj)
-      out.append(Obligation(oid, hyp, goal, func=key, kind="CAPACITY", meta=dict(meta0, goal=f"if every allocation fits, the store to {a.arr.name} at line {a.lineno} happens under the same condition / at the same place as with any larger capacity", lineno=a.lineno, timeout_ms=4000, int_projection=True)))
+      keep = [c.decl().name() for c in caps.values()] + [p[1].decl().name() for p in pairs]
+      for b, _, _ in allocs:
+        if isinstance(b.value[1], z3.ExprRef):
+          keep.append(b.value[1].decl().name())
+      out.append(Obligation(oid, hyp, goal, func=key, kind="CAPACITY", meta=dict(meta0, goal=f"if every allocation fits, the store to {a.arr.name} at line {a.lineno} happens under the same condition / at the same place as with any larger capacity", lineno=a.lineno, timeout_ms=4000, int_projection=True, keep_syms=keep)))
     if n == 0:
       out.append(Result(oid=f"{key}[{label}]#CAPACITY.noovf", status="discharged", kind="CAPACITY", func=key, backend="syntactic", meta=dict(meta0, goal="no store depends on a capacity parameter")))
   return out
